@@ -81,6 +81,59 @@ func runHistory(res *Result, cfg PoolCfg, ops []HOp) error {
 			}
 		}
 	}
+	// a fresh handle (cold in-memory caches, warm on-disk snapshot files) that visits the
+	// commits newest first: a later commit's snapshot is then built on top of an
+	// ancestor's cached or persisted snapshot before the ancestor itself is queried
+	for pass := 0; pass < 2; pass++ {
+		// on a copy of the storage from which a seeded half of the persisted snapshot
+		// caches (derived, deletable files) has been removed, so that some commits must
+		// be rebuilt on top of an ancestor's persisted snapshot
+		eng3 := env.Eng.Clone()
+		prng := NewRng(uint64(len(lr.Log)*7 + pass))
+		for _, path := range eng3.Paths() {
+			if strings.HasSuffix(path, ".snap.zng") && prng.Bool() {
+				eng3.RemoveFile(path)
+			}
+		}
+		env3, err := OpenLakeEnv(eng3)
+		if err != nil {
+			return err
+		}
+		var all []*SpecCommit
+		seen3 := map[ksuid.KSUID]bool{}
+		for _, b := range lr.Branches {
+			for _, c := range b.Commits {
+				if !seen3[c.ID] && c.ID != ksuid.Nil && c.HasSeen {
+					seen3[c.ID] = true
+					all = append(all, c)
+				}
+			}
+		}
+		sort.Slice(all, func(i, j int) bool { return all[i].ID.String() > all[j].ID.String() }) // KSUIDs sort by creation time
+		if pass == 1 {
+			Shuffle(NewRng(uint64(len(all))), all)
+		}
+		for _, c := range all {
+			vac := false
+			for id := range c.Objs {
+				if lr.Deleted[id] {
+					vac = true
+				}
+			}
+			if vac {
+				continue
+			}
+			got, err := env3.QueryCommit(fmt.Sprintf("from p@%s", c.ID), c.ID)
+			res.Count("fresh_handle_requeries")
+			if err != nil {
+				res.Fail(Failure{Kind: "oracle", Sig: "C13:commit-unreadable-fresh-handle", Detail: fmt.Sprintf("commit %s cannot be queried through a fresh handle: %v", c.ID, err), Replay: map[string]any{"pool": cfg.String(), "history": lr.Log}, Expected: "readable", Observed: err.Error()})
+				continue
+			}
+			if strings.Join(SortedCopy(got), "\n") != strings.Join(SortedCopy(c.Seen), "\n") {
+				res.Fail(Failure{Kind: "oracle", Sig: "C13:commit-changed-fresh-handle", Detail: fmt.Sprintf("a fresh handle that first queried later commits sees %d values at commit %s, which returned %d when it was created", len(got), c.ID, len(c.Seen)), Replay: map[string]any{"pool": cfg.String(), "history": lr.Log, "at_creation": c.Seen, "now": got, "order": "newest first"}, Expected: strings.Join(c.Seen, " "), Observed: strings.Join(got, " ")})
+			}
+		}
+	}
 	// Coq case: commit graph + action logs + object contents + what each commit returned
 	if cc, ok := coqCommitCase(lr); ok {
 		commitCases = append(commitCases, cc)
